@@ -65,6 +65,13 @@ def h_xa(run, rng):
     run.do(('AddFile', (), b'B.;1', rng.choice(['aXA', 'aXAbcdefghijkl', 'qXA' + 'z' * 300]), 3))
 
 
+def h_longid(run, rng):
+    """identifiers of 186..193 bytes: with 1.09 the 5-byte RR entry (and SP, NM, PX ..) moves into the continuation area"""
+    for k, n in enumerate(rng.sample(range(183, 191), 4)):          # + '.;1' -> 186..193
+        run.do(('AddFile', (), b'%c' % (65 + k) * n + b'.;1', rng.choice(['a', 'n' * 40, 'm' * 300]), 1))
+    run.do(('AddDir', (), b'D' * rng.choice([186, 190, 193]), 'dd'))
+
+
 def cases(seed, n):
     base = mrc.cases(seed, n)
     out = []
@@ -73,6 +80,10 @@ def cases(seed, n):
         if k % 25 == 7:
             c['spec'] = ('order',)
             c['label'] = 'seed %d #%d: order (%s)' % (seed, k, c['version'])
+        elif k % 25 == 13:
+            c['spec'] = ('longid',)
+            c['version'] = '1.09' if k % 50 == 13 else rng_version(k)
+            c['label'] = 'seed %d #%d: longid (%s)' % (seed, k, c['version'])
         elif k % 25 == 19:
             c['spec'] = ('xa',)
             c['version'] = '1.12' if k % 50 == 19 else '1.10'
@@ -81,11 +92,15 @@ def cases(seed, n):
     return out
 
 
+def rng_version(k):
+    return ['1.09', '1.10', '1.12'][k % 3]
+
+
 def run_history(case):
-    if case['spec'][0] in ('order', 'xa'):
+    if case['spec'][0] in ('order', 'xa', 'longid'):
         rng = random.Random(case['rngseed'] + 17)
         run = mrc.Runner(case['version'])
-        (h_order if case['spec'][0] == 'order' else h_xa)(run, rng)
+        {'order': h_order, 'xa': h_xa, 'longid': h_longid}[case['spec'][0]](run, rng)
         return run
     return mrc.run_history(case)
 
